@@ -1122,6 +1122,13 @@ class SymCtx:
         is recorded; the path goes on under the assumption that cond holds.
         A concretely false cond ends the path unless soft=True (the state of the
         caller stays meaningful): then it is recorded once per tag and path."""
+        if not self.is_fatal(tag):
+            # not this check's business: skip, unless the caller cannot go on
+            if soft:
+                return
+            if cond:
+                return
+            raise PathAbort("noteval", tag)
         if isinstance(cond, SymBool):
             def hit(m):
                 g = self.E.grid_model(cond.neg()) if self.E.has_reals() else None
@@ -1200,6 +1207,10 @@ class ConcreteCtx:
         return self.fatal is None or self.fatal(tag)
 
     def require(self, cond, tag, info=None, soft=False):
+        if not self.is_fatal(tag):
+            if soft or cond:
+                return
+            raise PathAbort("noteval", tag)
         if not cond:
             if soft and tag in self.soft_failed:
                 return
